@@ -6,8 +6,9 @@
 -/
 import BEI.Model.Reader
 import BEI.Props.C16
+import BEI.Props.C13
 namespace BEI.Props.C15
-open BEI BEI.Props.C05
+open BEI BEI.Props.C05 BEI.Props.C16
 
 /-- a reader at the start of a frame with no UI interaction -/
 def fresh (raw : RawInput) (dev : Device) : Reader := { raw := raw, consumed := {}, device := dev }
@@ -176,5 +177,53 @@ theorem unhidden_reads_physical (r : Reader) (j : Input) (h : hiddenBy r.consume
   | padAxis x =>
     simp [hiddenBy] at h
     simp [fresh, Reader.value, Reader.findPad, h]
+
+theorem foldl_consume_pres {P : Reader → Prop} (hP : ∀ r i, P r → P (r.consume i)) (is : List Input) :
+    ∀ r, P r → P (is.foldl Reader.consume r) := by
+  induction is with
+  | nil => intro r h; exact h
+  | cons i is ih => intro r h; exact ih _ (hP r i h)
+
+/-- a reader predicate preserved by `consume` holds for the reader every action of an instance is evaluated with
+    (the loop changes the reader only by consuming) -/
+theorem loopActions_consume_inv {P : Reader → Prop} (hP : ∀ r i, P r → P (r.consume i)) (t : Tick) (es : List Nat) :
+    ∀ (bs : List ActionBind) (r : Reader) (av : ActionsView) bs' r' av' dl lg,
+      ContextInstance.loopActions r av t es bs = some (bs', r', av', dl, lg) → P r → P r' := by
+  intro bs
+  induction bs with
+  | nil =>
+    intro r av bs' r' av' dl lg h hj
+    simp only [ContextInstance.loopActions, Option.some.injEq, Prod.mk.injEq] at h
+    obtain ⟨_, rfl, _, _, _⟩ := h
+    exact hj
+  | cons ab rest ih =>
+    intro r av bs' r' av' dl lg h hj
+    simp only [ContextInstance.loopActions] at h
+    split at h
+    · cases h
+    · rename_i o ho
+      split at h
+      · cases h
+      · rename_i rest' r'' av'' dl' lg' hrest
+        simp only [Option.some.injEq, Prod.mk.injEq] at h
+        obtain ⟨_, rfl, _, _, _⟩ := h
+        refine ih _ _ _ _ _ _ _ hrest ?_
+        obtain ⟨_, _, _, hreader, _⟩ := update_consumes ab r av t es o ho
+        rw [hreader]
+        exact foldl_consume_pres hP _ r hj
+
+/-- **every action of a context instance is evaluated with the instance's own gamepad selection**: split the instance's
+    bindings anywhere — the reader handed to the rest (after the actions before it were evaluated and consumed whatever they
+    consumed) still selects `ci.gamepad`, and still carries this frame's raw device state.  So a context tied to one gamepad
+    reads only that gamepad (`single_reads_only_g`, `single_absent_inactive`) at every action's turn, whatever other
+    contexts with other selections were evaluated before it. -/
+theorem action_turn_device (ci : ContextInstance) (r : Reader) (t : Tick) (es : List Nat) (pre : List ActionBind)
+    (pre' : List ActionBind) (r1 : Reader) (av1 : ActionsView) (dl1 : List Delivery) (lg1 : List Inv)
+    (h : ContextInstance.loopActions (r.setGamepad ci.gamepad) ci.actions t es pre = some (pre', r1, av1, dl1, lg1)) :
+    r1.device = ci.gamepad ∧ r1.raw = r.raw := by
+  have := loopActions_consume_inv (P := fun x => x.device = ci.gamepad ∧ x.raw = r.raw)
+    (by intro x i hx; exact ⟨by rw [consume_device]; exact hx.1, by cases i <;> exact hx.2⟩)
+    t es pre _ _ _ _ _ _ _ h ⟨rfl, rfl⟩
+  exact this
 
 end BEI.Props.C15
